@@ -593,12 +593,16 @@ def gen_valid(rng, method, cheap=True):
         # raw scrypt salts have no length limit of their own: go up to what fits the output field
         n = r.choice([0, 1, 8, 16, 22, 43, 86, 120, 200, 270, 284, 285, 290, 300, 320, 325, 326, 340,
                       r.randint(310, 330)])
-        sk = r.choice(["a64", "a64", "dollar"])
+        sk = r.choice(["a64", "a64", "dollar", "dollars"])
         salt = rsalt(r, n)
         if sk == "dollar" and n >= 3:
             i = r.randint(1, n - 2)
             salt = salt[:i] + b"$" + salt[i + 1:]
-        elif sk == "dollar":
+        elif sk == "dollars" and n >= 8:
+            # '$' is an ordinary character of the raw salt: several of them, also adjacent and at the ends
+            for i in r.sample(range(n), r.choice([2, 3, 4])):
+                salt = salt[:i] + b"$" + salt[i + 1:]
+        else:
             sk = "a64"
         t = r.choice(["", "$", "$h", "$x"])
         s = b"$7$" + A64[nl:nl + 1] + enc64_le(rr, 5) + enc64_le(p, 5) + salt
@@ -615,12 +619,15 @@ def gen_valid(rng, method, cheap=True):
         fl = r.choice([b"j", b"j", b"j", b"/", b"."])
         nl = r.choice([2, 3, 4, 6, 8, 10, 11]) if fl != b"." else r.choice([1, 2, 4, 8])
         rr = r.choice([1, 2, 8, 8, 32]) if nl <= 8 else r.choice([1, 8])
+        if nl <= 4 and r.random() < 0.35:
+            rr = r.choice([48, 49, 50, 63, 64, 65, 82, 100, 113])      # numbers written with two characters
         hk = r.choice(["none", "none", "p", "t", "pt"])
         params = fl + yes_enc_uint(nl, 1) + yes_enc_uint(rr, 1)
+        big2 = nl <= 3 and rr <= 8 and r.random() < 0.4
         if hk == "p":
-            params += yes_enc_uint(1, 1) + yes_enc_uint(r.choice([2, 3]), 2)
+            params += yes_enc_uint(1, 1) + yes_enc_uint(r.choice([50, 51, 64, 70]) if big2 else r.choice([2, 3]), 2)
         elif hk == "t":
-            params += yes_enc_uint(2, 1) + yes_enc_uint(r.choice([1, 2]), 1)
+            params += yes_enc_uint(2, 1) + yes_enc_uint(r.choice([48, 49, 50, 66]) if big2 else r.choice([1, 2]), 1)
         elif hk == "pt":
             params += yes_enc_uint(3, 1) + yes_enc_uint(2, 2) + yes_enc_uint(1, 1)
         nb = r.choice([0, 1, 2, 3, 8, 15, 16, 17, 32, 63, 64])
@@ -791,7 +798,28 @@ def mutate(rng, s, long_ok=True):
     r = rng
     k = r.choice(["stretch-last", "stretch-last", "stretch-longest", "trunc", "byte",
                   "dup-dollar", "drop-dollar", "append", "insert", "swapcase-tag",
-                  "digit", "ins-bad", "splice"])
+                  "digit", "ins-bad", "splice", "saltpunct", "saltpunct"])
+    if k == "saltpunct":
+        # one character of the salt field replaced by a passwd(5)-safe character outside the base-64 alphabet:
+        # the characters sitting between the alphabet's ASCII runs ( [ ] ^ _ ` @ : is excluded ) first of all
+        runs, i = [], 0
+        a = set(A64)
+        while i < len(s):
+            if s[i] in a:
+                j = i
+                while j < len(s) and s[j] in a:
+                    j += 1
+                if j - i >= 2:
+                    runs.append((i, j))
+                i = j
+            else:
+                i += 1
+        if not runs:
+            return s, k
+        i, j = r.choice(runs)
+        q = r.randrange(i, j)
+        c = r.choice(b"[]^_`@{|}~-+=,<>?#%&()\"") if r.random() < 0.8 else r.choice(NON_A64)
+        return s[:q] + bytes([c]) + s[q + 1:], "saltpunct-%02x" % c
     if k in ("stretch-last", "stretch-longest"):
         a = set(A64)
         i, j = _last_run(s, a) if k == "stretch-last" else _longest_run(s, a)
